@@ -694,7 +694,15 @@ class Evaluator:
             self.emit("return", TRUE, t, fn.body)
             fall = FALSE
         else:
-            fall = self.block(self._split_filled_displays(fn.body), TRUE)
+            body_ = self._split_filled_displays(fn.body)
+            # names grown in place at more than one site: their first fill is a phase, not the whole value
+            self.multi_mutated = {}
+            for st_ in body_:
+                for x_ in ast.walk(st_):
+                    if isinstance(x_, ast.Call) and isinstance(x_.func, ast.Attribute) and x_.func.attr in ("append", "extend", "insert") \
+                            and isinstance(x_.func.value, ast.Name):
+                        self.multi_mutated[x_.func.value.id] = self.multi_mutated.get(x_.func.value.id, 0) + 1
+            fall = self.block(body_, TRUE)
             self._normalise_search_loops()
             self._normalise_accumulators()
         return Summary(self.qual, self.module, fn, params, defaults, annotations, self.events, self.loops,
@@ -1028,7 +1036,7 @@ class Evaluator:
                     if arg[0] in ("list", "tuple"):
                         self.env[nm] = upd(cur, lambda xs: xs + arg[1])
                         return live
-                    if arg[0] == "comp" and arg[1] in ("gen", "list"):
+                    if arg[0] == "comp" and arg[1] in ("gen", "list") and getattr(self, "multi_mutated", {}).get(nm, 0) < 2:
                         # xs = []; xs.extend(f(v) for v in vs)  is  xs = [f(v) for v in vs]
                         def upd2(t):
                             if t[0] == "ite":
